@@ -180,3 +180,87 @@ def rand_history(rng, name, layout, kinds, nops, maxlen, nvecs=3, max_created=No
                 c.add("push %d w%d" % (v, d["ty"])); d["len"] += 1; created += 1
     c.finish([d["v"] for d in vs]); c.tags.add("random")
     return c
+
+# ---------------------------------------------------------------------------------------------
+USIZE_MAX = 2**64 - 1
+
+def range_forms(s, e, L):
+    """every RangeBounds spelling of the valid range [s, e) on a vector of length L"""
+    forms = [("i%d" % s, "e%d" % e)]
+    if e > 0: forms.append(("i%d" % s, "i%d" % (e - 1)))
+    if s > 0: forms.append(("e%d" % (s - 1), "e%d" % e))
+    if s > 0 and e > 0: forms.append(("e%d" % (s - 1), "i%d" % (e - 1)))
+    if s == 0: forms.append(("u", "e%d" % e))
+    if s == 0 and e > 0: forms.append(("u", "i%d" % (e - 1)))
+    if e == L: forms.append(("i%d" % s, "u"))
+    if e == L and s > 0: forms.append(("e%d" % (s - 1), "u"))
+    if s == 0 and e == L: forms.append(("u", "u"))
+    return forms
+
+def invalid_ranges(L):
+    M = USIZE_MAX
+    return [("i%d" % (L + 1), "e%d" % L), ("i1", "e0"), ("i0", "e%d" % (L + 1)), ("i0", "i%d" % L),
+            ("u", "e%d" % (L + 1)), ("i%d" % (L + 1), "u"), ("e%d" % L, "u"), ("e%d" % L, "e%d" % L),
+            ("i0", "i%d" % M), ("u", "i%d" % M), ("e%d" % M, "u"), ("e%d" % M, "e%d" % M),
+            ("i%d" % M, "u"), ("i0", "e%d" % M), ("i%d" % M, "i%d" % M), ("e%d" % (M - 1), "i%d" % M),
+            ("i2", "i0") if L >= 2 else ("i1", "e0")]
+
+def choice_strings(r, extra, rng, cap=40):
+    """all next/next_back interleavings up to r+extra calls (sampled beyond `cap`)"""
+    out = [""]
+    for n in range(1, r + extra + 1):
+        for k in range(2 ** n):
+            out.append("".join("FB"[(k >> j) & 1] for j in range(n)))
+    if len(out) > cap:
+        keep = ["", "F" * (r + extra), "B" * (r + extra), ("FB" * r)[:r + extra], ("BF" * r)[:r + extra]]
+        out = keep + rng.sample(out, cap - len(keep))
+    return out
+
+def gen_ranges(rng, layouts, kinds, Ls, tag, typed_too=True, sinks_erased=None, with_splice=True,
+               repl_sets=None, fins=("drop",), claims=(0,), strings_cap=24):
+    n = 0
+    sinks_e = sinks_erased or ["drop", "dc0", "dc1", "push1", "ins1.1", "swap0", "lazy1.1"]
+    sinks_t = ["drop", "dc0"]
+    rs = repl_sets or [[], ["w0"], ["r0"], ["w0", "w0"], ["r0", "w0", "r0"], ["l1.0.1"], ["w0", "l1.1.2", "r0"], ["w0", "w0", "w0"]]
+    for layout in layouts:
+        for bk, traits in kinds:
+            cap = kind_cap(bk, layout[0])
+            cl = "clone" in traits
+            for L in Ls:
+                if cap is not None and (cap < 0 or L > cap): continue
+                specs = []
+                for s in range(L + 1):
+                    for e in range(s, L + 1):
+                        forms = range_forms(s, e, L)
+                        for cs in choice_strings(e - s, 1, rng, strings_cap):
+                            specs.append((rng.choice(forms), cs, e - s))
+                        for f in forms: specs.append((f, "F" * (e - s), e - s))
+                for f in invalid_ranges(L): specs.append((f, "", 0))
+                for (lo, hi), cs, r in specs:
+                    for typed in ((False, True) if typed_too else (False,)):
+                        sinks = sinks_t if typed else [k for k in sinks_e if cl or not k.startswith("lazy")]
+                        eats = ",".join("%s:%s" % (c, rng.choice(sinks)) for c in cs) or "-"
+                        for fin in fins:
+                            c = Case("%s%d" % (tag, n), layout); n += 1
+                            setup3(c, bk, traits, L, rng)
+                            c.add("drain 0 %s %s %s %s %s" % (lo, hi, "t" if typed else "e", eats, fin))
+                            c.add("iter 0 " + "F" * (L + 1))
+                            c.finish([0, 1, 2]); c.tags.add("drain")
+                            yield c
+                            if not with_splice: continue
+                            repl = rng.choice(rs)
+                            if typed: repl = [x for x in repl if x == "w0"]
+                            if not cl: repl = [x for x in repl if not x.startswith("l")]
+                            seats = eats
+                            if any(x.startswith("l1.") for x in repl):
+                                # a lazy clone borrows vector 1 for the whole call: nothing may go into it
+                                ok_sinks = [k for k in sinks if not k.endswith("1") and "1." not in k]
+                                seats = ",".join("%s:%s" % (c_, rng.choice(ok_sinks)) for c_ in cs) or "-"
+                            for claim in claims:
+                                c = Case("%s%d" % (tag, n), layout); n += 1
+                                setup3(c, bk, traits, L, rng)
+                                c.add("splice 0 %s %s %s %s %+d %s %s" % (lo, hi, "t" if typed else "e",
+                                      ",".join(repl) or "-", claim, seats, fin))
+                                c.add("iter 0 " + "F" * (L + 3))
+                                c.finish([0, 1, 2]); c.tags.add("splice")
+                                yield c
